@@ -6,8 +6,10 @@ creates) must succeed under SQLite's immediately enforced foreign keys whenever 
 formed. Part 2 (spec/PonyCycle.tla): two entities referencing each other through two relationships; when the
 references among newly created objects form a cycle the flush must raise and commit nothing (or break the cycle and
 commit everything), when they do not, it must succeed in whatever order the program created and re-pointed them.
+Part 3 (spec/PonyKeys.tla): the save order when nothing references anything. Part 4 (spec/PonyOrder.tla): every sequence
+of creations, re-pointings and deletions over two parents and two children, ended by the commit.
 """
-from .. import session_check, session_replay, cycle_c16, keys_c14
+from .. import session_check, session_replay, cycle_c16, keys_c14, order_c16
 
 LEVEL = 'model_checking'
 
@@ -27,9 +29,25 @@ def run(ctx):
     # queue order): a flush the specification says succeeds must succeed
     res, stats, found = keys_c14.run(ctx, 800 if quick else 8000, 6 if quick else 8, ctx.seed + 5, check_level=7 if quick else 9, qnull=False)
     keys_c14.report(ctx, 'C16', res, stats, found)
+    # spec/PonyOrder.tla: every sequence of creations, re-pointings and deletions over two parents and two children (the
+    # references always form a forest), ended by the commit: it must succeed and store the session's view
+    res, stats, found = order_c16.run(ctx, 6 if quick else 8)
+    for known, what, rep in found:
+        if known:
+            ctx.mismatch('C16:flush-order:repointed-dependent-deleted-after-its-old-parent', what, {'order_path': rep})
+        else:
+            ctx.mismatch('C16:order:%s:%s' % ('-'.join(c[0] for c in rep['calls']), what.split(':')[0][:40]), what, {'order_path': rep})
+    ctx.coverage['states'] += res.distinct
+    ctx.coverage['transitions'] += res.generated
+    ctx.coverage['traces_validated_against_impl'] += stats['paths']
+    ctx.coverage['order_model'] = stats
 
 
 def replay(ctx, rep):
+    if 'order_path' in rep:
+        order_c16.replay(ctx, rep)
+        ctx.violations.append('replayed')
+        return
     if 'keys_trace' in rep:
         keys_c14.replay(ctx, rep)
         ctx.violations.append('replayed')
